@@ -184,6 +184,77 @@ func primOps(t string, v, wire []byte) (wb, ws, rb, rs []byte, rerr bool) {
 	return buf[:w], sb.Bytes(), rb, rs, er.Err != nil || !bytes.Equal(buf[w:], []byte{0xAA, 0xAA, 0xAA, 0xAA})
 }
 
+// byteFns: the byte-slice reader and writer of each fixed-width primitive, on raw little-endian values.
+func byteRead(t string, buf []byte) []byte {
+	switch t {
+	case "bool":
+		if iohelp.ReadBoolBytes(buf) {
+			return []byte{1}
+		}
+		return []byte{0}
+	case "byte":
+		return []byte{iohelp.ReadByteBytes(buf)}
+	case "uint8":
+		return []byte{iohelp.ReadUint8Bytes(buf)}
+	case "uint16":
+		return digitsU(uint64(iohelp.ReadUint16Bytes(buf)), 2)
+	case "int16":
+		return digitsU(uint64(uint16(iohelp.ReadInt16Bytes(buf))), 2)
+	case "uint32":
+		return digitsU(uint64(iohelp.ReadUint32Bytes(buf)), 4)
+	case "int32":
+		return digitsU(uint64(uint32(iohelp.ReadInt32Bytes(buf))), 4)
+	case "uint64":
+		return digitsU(iohelp.ReadUint64Bytes(buf), 8)
+	case "int64":
+		return digitsU(uint64(iohelp.ReadInt64Bytes(buf)), 8)
+	case "float32":
+		return digitsU(uint64(math.Float32bits(iohelp.ReadFloat32Bytes(buf))), 4)
+	case "float64":
+		return digitsU(math.Float64bits(iohelp.ReadFloat64Bytes(buf)), 8)
+	case "guid":
+		g := iohelp.ReadGUIDBytes(buf)
+		return g[:]
+	case "date":
+		return digitsU(uint64(workerlib.TimeToTicks(iohelp.ReadDateBytes(buf))), 8)
+	}
+	return nil
+}
+
+func byteWrite(t string, buf []byte, v []byte) bool {
+	switch t {
+	case "bool":
+		iohelp.WriteBoolBytes(buf, v[0] == 1)
+	case "byte":
+		iohelp.WriteByteBytes(buf, v[0])
+	case "uint8":
+		iohelp.WriteUint8Bytes(buf, v[0])
+	case "uint16":
+		iohelp.WriteUint16Bytes(buf, uint16(leU(v)))
+	case "int16":
+		iohelp.WriteInt16Bytes(buf, int16(uint16(leU(v))))
+	case "uint32":
+		iohelp.WriteUint32Bytes(buf, uint32(leU(v)))
+	case "int32":
+		iohelp.WriteInt32Bytes(buf, int32(uint32(leU(v))))
+	case "uint64":
+		iohelp.WriteUint64Bytes(buf, leU(v))
+	case "int64":
+		iohelp.WriteInt64Bytes(buf, int64(leU(v)))
+	case "float32":
+		iohelp.WriteFloat32Bytes(buf, math.Float32frombits(uint32(leU(v))))
+	case "float64":
+		iohelp.WriteFloat64Bytes(buf, math.Float64frombits(leU(v)))
+	case "guid":
+		var g [16]byte
+		copy(g[:], v)
+		iohelp.WriteGUIDBytes(buf, g)
+	default:
+		return false
+	}
+	return true
+}
+
 func safely(f func()) (p string) {
 	defer func() {
 		if r := recover(); r != nil {
@@ -382,6 +453,44 @@ func runC20(c *Ctx) (int, error) {
 			m["wb"], m["ws"] = pc.Wire, pc.Wire
 		}
 		put(m)
+	}
+	// buffer lengths around the width: a slice of n bytes inside a larger array with a recognisable pattern behind it.
+	// n < width: the call must not return (it would have used bytes that are not in the slice) and must not write behind
+	// the slice; n >= width: the first `width` bytes are the value, the rest is neither read nor written.
+	for t, wd := range c20Widths {
+		for n := 0; n <= wd+3; n++ {
+			backing := make([]byte, wd+16)
+			for i := range backing {
+				backing[i] = byte(0x31 + 7*i)
+			}
+			if t == "bool" {
+				backing[0] = 1
+			}
+			if t == "date" {
+				backing[7] = 0x01 // keep the tick count inside the range every conversion handles
+			}
+			// the reference: the same function on exactly `width` bytes (its correctness is the "prim" events' business)
+			var want []byte
+			_ = safely(func() { want = byteRead(t, append([]byte{}, backing[:wd]...)) })
+			var got []byte
+			pn := safely(func() { got = byteRead(t, backing[:n]) })
+			put(map[string]interface{}{"ev": "blen", "op": "read", "t": t, "n": n, "w": wd, "returned": pn == "", "val": toInts(got), "want": toInts(want), "behind": false})
+			if t == "date" {
+				continue
+			}
+			val := bytes.Repeat([]byte{0xC3}, wd)
+			if t == "bool" {
+				val = []byte{1}
+			}
+			before := append([]byte{}, backing...)
+			pw := safely(func() { byteWrite(t, backing[:n], val) })
+			lim := n
+			if n > wd {
+				lim = wd
+			}
+			behind := !bytes.Equal(backing[lim:], before[lim:])
+			put(map[string]interface{}{"ev": "blen", "op": "write", "t": t, "n": n, "w": wd, "returned": pw == "", "val": toInts(backing[:lim]), "want": toInts(val[:lim]), "behind": behind})
+		}
 	}
 	// stale scratch: every stream reader, every short length j < w, two different previous reads
 	for t, wd := range c20Widths {
